@@ -23,8 +23,11 @@ def make_world():
         def met(self) -> float: ...
 
     class DS(EventDataset):
-        def __init__(self, name, item_type=Any):
+        def __init__(self, name, item_type=Any, root_arg=None):
             super().__init__(item_type)
+            if root_arg is not None:
+                # the idiom of back ends that name their input in the root node
+                self.query_ast.args.append(ast.Constant(value=root_arg))
             self.name = name
             self.calls = []
             self.fail = False
@@ -35,6 +38,19 @@ def make_world():
             if self.fail:
                 raise RuntimeError(f"boom-{self.name}-{len(self.calls)}")
             return ("result", self.name, len(self.calls))
+    import functools
+
+    def plain_wrapper(f):
+        # an ordinary (non-async) decorator around the coroutine function: still an executor that
+        # returns an awaitable, but inspect.iscoroutinefunction() says False (seed C12_e)
+        @functools.wraps(f)
+        def w(*a, **k):
+            return f(*a, **k)
+        return w
+
+    class DSW(DS):
+        execute_result_async = plain_wrapper(DS.execute_result_async)
+    DS.Wrapped = DSW
     return DS, Event, Jet
 
 
@@ -108,9 +124,12 @@ class Hist:
 
     # ---- operations ---------------------------------------------------------------------
     def op_new(self, typed):
-        ds = self.DS(f"ds{len(self.datasets)}", self.Event if typed else Any)
+        # every second dataset writes an argument into its own root node
+        root_arg = "f.root" if len(self.datasets) % 4 in (1, 3) else None
+        cls = self.DS.Wrapped if len(self.datasets) % 4 in (1, 2) else self.DS
+        ds = cls(f"ds{len(self.datasets)}", self.Event if typed else Any, root_arg)
         self.datasets.append(ds)
-        self.log.append(f"ds{len(self.datasets)-1}=DS(typed={typed})")
+        self.log.append(f"ds{len(self.datasets)-1}=DS(typed={typed}, root_arg={root_arg!r})")
         return self.add(ds, len(self.datasets) - 1, {}, self.log[-1])
 
     def op_derive(self, i, op, k, how):
@@ -179,7 +198,8 @@ class Hist:
             chain.append(steps[k])
             k = steps[k][0]
         root_desc = self.streams[k]["desc"]
-        ds = self.DS("twin", self.Event if "typed=True" in root_desc else Any)
+        ds = self.DS("twin", self.Event if "typed=True" in root_desc else Any,
+                     "f.root" if "root_arg='f.root'" in root_desc else None)
         cur = ds
         for parent, op, arg in reversed(chain):
             if op == "QMetaData":
